@@ -114,9 +114,61 @@ class Repo:
         cache = self.__dict__.setdefault('_canon_cache', {})
         key = (rel, qual)
         if key not in cache:
-            from .canon import canonicalise
-            cache[key] = canonicalise(node, f'{rel}::{qual}')
+            from .canon import canonicalise, roles, signatures
+            from .normalise import inline_temporaries, desugar_ifexp
+            rkey = f'{rel}::{qual}'
+            out = node
+            if not os.environ.get('HIDVERIF_NO_NORMALISE') and roles():
+                table = roles().get(rkey) or {}
+                gens = self._generator_names(rel, qual)
+                for _ in range(3):
+                    # locals the rules may name: the canonical names of this function, and the current names of
+                    # locals that are recognised (by their defining expression) as one of them
+                    _, _, mapping, _ = signatures(out, table) if table else (None, None, {}, None)
+                    known = set(table.values()) | set(mapping)
+                    if not table:
+                        # a function the table does not know (a helper split off from a known one): the rules may still
+                        # name its locals by the names the neighbouring functions use
+                        known |= self._names_in_file(rel)
+                    new = inline_temporaries(out, known, gens)
+                    if new is out:
+                        break
+                    out = new
+            out = canonicalise(out, rkey)
+            if not os.environ.get('HIDVERIF_NO_NORMALISE'):
+                out = desugar_ifexp(out)
+            cache[key] = out
         return cache[key]
+
+    def _names_in_file(self, rel):
+        cache = self.__dict__.setdefault('_file_names', {})
+        if rel not in cache:
+            from .canon import roles
+            names = set()
+            for k, t in roles().items():
+                if k.startswith(rel + '::'):
+                    names |= set(t.values())
+            cache[rel] = names
+        return cache[rel]
+
+    def _generator_names(self, rel, qual):
+        """Names of the generator functions defined next to `qual` (same class, or module level)."""
+        cache = self.__dict__.setdefault('_gen_names', {})
+        scope = qual.rsplit('.', 1)[0] if '.' in qual else ''
+        if (rel, scope) not in cache:
+            body = self.module(rel).body
+            if scope:
+                for part in scope.split('.'):
+                    body = next((n.body for n in body if isinstance(n, ast.ClassDef) and n.name == part), [])
+            names = set()
+            for n in body:
+                if isinstance(n, (ast.FunctionDef, ast.AsyncFunctionDef)):
+                    for x in ast.walk(n):
+                        if isinstance(x, (ast.Yield, ast.YieldFrom)):
+                            names.add(n.name)
+                            break
+            cache[(rel, scope)] = names
+        return cache[(rel, scope)]
 
     def functions(self, rel):
         return {n.name: self._canon(rel, n.name, n) for n in self.module(rel).body
